@@ -490,8 +490,8 @@ fn script_pool() -> Vec<(&'static str, Vec<Instruction>, String)> {
             op::gm_args(0x11, GMArgs::TxStart),
             op::gm_args(0x12, GMArgs::BaseAssetId),
             op::log(0x10, 0x11, 0x12, RegId::ZERO),
-            op::gtf_args(0x10, RegId::ZERO, GTFArgs::ScriptInputsCount),
-            op::gtf_args(0x11, RegId::ZERO, GTFArgs::ScriptOutputsCount),
+            op::gtf_args(0x10, RegId::ZERO, GTFArgs::TxInputsCount),
+            op::gtf_args(0x11, RegId::ZERO, GTFArgs::TxOutputsCount),
             op::gtf_args(0x12, RegId::ZERO, GTFArgs::PolicyTypes),
             op::log(0x10, 0x11, 0x12, RegId::ONE),
             op::movi(0x13, 2),
@@ -511,8 +511,8 @@ fn script_pool() -> Vec<(&'static str, Vec<Instruction>, String)> {
             op::gm_args(0x10, GMArgs::GetOwner),
             op::movi(0x11, 32),
             op::logd(RegId::ZERO, RegId::ZERO, 0x10, 0x11),
-            op::gtf_args(0x10, RegId::ZERO, GTFArgs::ScriptInputsCount),
-            op::gtf_args(0x11, RegId::ZERO, GTFArgs::ScriptOutputsCount),
+            op::gtf_args(0x10, RegId::ZERO, GTFArgs::TxInputsCount),
+            op::gtf_args(0x11, RegId::ZERO, GTFArgs::TxOutputsCount),
             op::log(0x10, 0x11, RegId::ZERO, RegId::ZERO),
             op::ret(RegId::ONE),
         ],
